@@ -206,6 +206,26 @@ def gen(tier, rng):
         for lit in lits:
             prog = ["10 %s %s:V=%s:PRINT V" % (deft, letter, lit)]
             cases.append(Case(sess.prog_session(prog), sig="%s V:V=%s" % (deft, lit), tag="assign-deftype", meta=("assign", {"DEFINT": "%", "DEFDBL": "#", "DEFSTR": "$", "DEFSNG": "!"}[deft], lit)))
+    # (e) chains of unary operators, compiled and run: each application converts and checks on its own (NOT floors to a 16-bit
+    # Integer, negation of -32768 overflows, neither takes a string), so no two of them cancel
+    atoms = [("A%", "I", -32768), ("B%", "I", 5), ("7", "I", 7), ("S", "S", 2.5), ("T", "S", 40000.0), ("U", "S", -7.25), ("D#", "D", 2.5),
+             ("E#", "D", -40000.5), ("Q$", "T", "A"), ("2.5", "S", 2.5), ("32767", "I", 32767), ("V", "S", -32768.0)]
+    setup = 'A%=-32767-1:B%=5:S=2.5:T=40000:U=-7.25:D#=2.5:E#=-40000.5:Q$="A":V=-32768'
+    uns = ["-", "NOT ", "+"]
+    chains = [[a, b] for a in uns for b in uns] + [[a, b, c] for a in uns for b in uns for c in uns]
+    for name, ty, v in atoms:
+        for ch in chains:
+            for style in (0, 1, 2):
+                txt = name
+                for k, u in enumerate(reversed(ch)):
+                    if style == 0:
+                        txt = u + " " + txt if not u.endswith(" ") else u + txt
+                    elif style == 1:
+                        txt = u + "(" + txt + ")"
+                    else:
+                        txt = u + ("(" + txt + ")" if k % 2 == 0 else " " + txt)
+                cases.append(Case(sess.prog_session(["10 " + setup, "20 PRINT " + txt]), sig="PRINT " + txt + "   with " + setup, tag="unary-chain",
+                                  meta=("chain", ty, v, list(reversed(ch)))))
     # (d) literal typing (unambiguous cases of the manual's six rules)
     for lit, ty in [("1E5", "s"), ("1e5", "s"), ("1E+5", "s"), ("2.5E-3", "s"), ("1D5", "d"), ("1d5", "d"), ("1.5", "s"), ("0.5", "s"), (".5", "s"),
                     ("1.2345678", "d"), ("12345678", "d"), ("1234567", "s"), ("32767", "i"), ("32768", "s"), ("0", "i"), ("7", "i"), ("1!", "s"),
@@ -281,6 +301,38 @@ def monitor(case, r):
             want = 0 if not case.line.split(" ")[3].startswith("I:-") else 1
         if PROMO[ty] != want:
             return "promotion: %s answers %s, the documented result type is %s" % (case.line, r, "ISD"[want])
+    elif m[0] == "chain":
+        ty, v = m[1], m[2]
+        err = None
+        for u in m[3]:
+            u = u.strip()
+            if u == "+":
+                continue
+            if ty == "T":
+                err = 13
+                break
+            if u == "-":
+                if ty == "I" and v == -32768:
+                    err = 6
+                    break
+                v = -v
+            else:
+                fl = math.floor(v)
+                if not -32768 <= fl <= 32767:
+                    err = 6
+                    break
+                ty, v = "I", -fl - 1
+        text = "".join(bytes.fromhex(e[2:]).decode() for e in r.split("|") if e.startswith("P:"))
+        body = text.split("READY.\n")[1] if text.count("READY.\n") >= 2 else ""
+        if err is not None:
+            return None if ("E:[%d " % err) in r else "unary: %s must be error %d, got %r %s" % (case.sig, err, body, [e for e in r.split("|") if e.startswith("E:")][:1])
+        if ty == "T":
+            want = v + "\n"
+        else:
+            num = ("%d" % v) if float(v) == int(v) else repr(float(v))
+            want = (num if v < 0 else " " + num) + " \n"
+        if body != want or "E:[" in r:
+            return "unary: %s must print %r, got %r %s" % (case.sig, want, body, [e for e in r.split("|") if e.startswith("E:")][:1])
     elif m[0] == "assign":
         suffix, lit = m[1], m[2]
         text = "".join(bytes.fromhex(e[2:]).decode() for e in r.split("|") if e.startswith("P:"))
